@@ -96,6 +96,21 @@ fn main() {
         }
         if bad > 4 { break; }
     }
+    // keys longer than the hash block (64 bytes): RFC 2104 reduces them with the MAC's own hash; the reference does it
+    for plen in [64usize, 65, 100] {
+        let long: String = (0..plen).map(|i| (b'a' + (i % 26) as u8) as char).collect();
+        let k = HMACKey::new_short_term(long.as_str()).unwrap();
+        for (tail, t, sha256) in [(vec![StunAttribute::from(MessageIntegrity::new(k.clone()))], 0x0008u16, false), (vec![StunAttribute::from(MessageIntegritySha256::new(k.clone()))], 0x001Cu16, true)] {
+            let mut attrs = base.clone(); attrs.extend(tail);
+            let buf = encode(attrs);
+            let pos = find(&buf, t).unwrap();
+            let maclen = if sha256 { 32 } else { 20 };
+            if &buf[pos + 4..pos + 4 + maclen] != reference_mac(&buf, pos, sha256, k.as_bytes()).as_slice() {
+                println!("WITNESS: attribute {:#06x} under a password of {} bytes is not the RFC 2104 HMAC of the text", t, plen); bad += 1;
+            }
+            if !accepted(&buf, &k) { println!("WITNESS: attribute {:#06x} under a password of {} bytes does not validate under its own key", t, plen); bad += 1; }
+        }
+    }
     // short-term key = OpaqueString(password), UTF-8: spaces are kept (non-ASCII spaces become U+0020), nothing is trimmed
     for (pw, want) in [(" secret ", &b" secret "[..]), ("secret\u{3000}", &b"secret "[..]), ("a  b", &b"a  b"[..]), ("caf\u{e9}", "caf\u{e9}".as_bytes()), ("cafe\u{301}", "caf\u{e9}".as_bytes())] {
         match HMACKey::new_short_term(pw) {
